@@ -156,6 +156,8 @@ func engineCLISearch(ctx *Ctx) {
 		base := filepath.Join(ctx.Scratch, fmt.Sprintf("cs%d", hI))
 		h := NewHome(base)
 		cmds := c17UniqueDB(r, []int{6, 20, 60, 150}[hI%4], (hI+ctx.Shard)%3)
+		twins := false
+		var twinWords []string
 		dbp := filepath.Join(base, "db.yml")
 		dbKind := "generated"
 		g := hI*ctx.NShards + ctx.Shard // global index of this home over all shards
@@ -170,6 +172,29 @@ func engineCLISearch(ctx *Ctx) {
 			os.WriteFile(dbp, []byte("- command: \"broken\n  description: [\n"), 0o644)
 			dbKind = "malformed"
 		default:
+			if g%7 == 2 && len(cmds) > 2 {
+				// a database that lists some command lines twice or three times under the same description - once per platform, or under two
+				// categories: separate entries, separate results. (The uniqueness the other homes have exists for the harness's sake:
+				// it maps printed items back to entries by their text. In these homes the count and the printed names decide.)
+				for k := 0; k < 3; k++ {
+					c := cmds[r.Intn(len(cmds))]
+					if strings.ContainsAny(c.Command+c.Description, "\x00") || strings.TrimSpace(vlib.FirstAlnumWord(c.Command+" "+c.Description)) == "" {
+						continue
+					}
+					for j := 1 + r.Intn(2); j > 0; j-- {
+						t := c
+						t.Niche = []string{"macos-terminal", "linux-basics", "twin category"}[r.Intn(3)]
+						t.Platform = [][]string{{"linux"}, {"macos"}, {"linux", "macos", "windows"}, nil}[r.Intn(4)]
+						t.Keywords = append(append([]string(nil), c.Keywords...), "twin")
+						cmds = append(cmds, t)
+					}
+					twinWords = append(twinWords, vlib.FirstAlnumWord(c.Command+" "+c.Description))
+				}
+				twins = len(twinWords) > 0
+				if twins {
+					dbKind = "generated-with-twins"
+				}
+			}
 			vlib.WriteYAML(dbp, cmds)
 		}
 		// the database the command will search (fallback ladder included), loaded the same way
@@ -193,6 +218,9 @@ func engineCLISearch(ctx *Ctx) {
 		}
 		ctx.R.Path("db-kind-"+dbKind, 1)
 		nSearch := 1 + r.Intn(5)
+		if twins {
+			nSearch = 3 + r.Intn(3)
+		}
 		prevHist := 0
 		prevQuery := ""
 		// the history lives under the user's configuration directory: $XDG_CONFIG_HOME when set, else $HOME/.config
@@ -284,8 +312,12 @@ func engineCLISearch(ctx *Ctx) {
 					raw = "  " + strings.ToUpper(raw) + " "
 				}
 			}
+			if twins && s < 2 {
+				raw = twinWords[r.Intn(len(twinWords))] // a word of a command line that is listed more than once
+				ctx.R.Path("requests-for-a-command-line-listed-more-than-once", 1)
+			}
 			wordByWord := false
-			if len(subPrefixes) > 0 && r.Intn(9) == 0 {
+			if len(subPrefixes) > 0 && r.Intn(9) == 0 && !(twins && s < 2) {
 				raw = subPrefixes[r.Intn(len(subPrefixes))] + " " + words[r.Intn(len(words))]
 				if r.Intn(2) == 0 {
 					raw += " " + words[r.Intn(len(words))]
@@ -490,7 +522,10 @@ func engineCLISearch(ctx *Ctx) {
 			} else if lower == "json" && printedN >= 0 {
 				// exact results in rank order
 				cand := printed
-				if !verbose { // scores are not printed: compare entries only
+				if twins { // items cannot be told apart by their text: the count above and the names below decide
+					cand = nil
+				}
+				if !verbose && cand != nil { // scores are not printed: compare entries only
 					for i := range cand {
 						if i < len(refs[0]) {
 							cand[i].Score = refs[0][i].Score
